@@ -360,7 +360,7 @@ Qed.
 (** the caller contract for the (pointer, count) needles *)
 Definition fneedle_ok (k : fneedle) : Prop :=
   match k with
-  | FPC cs n => n <= nlen cs + 1
+  | FPC cs n => n <= nlen cs + 1 /\ nlen cs + 1 < M64
   | FS x => nlen x + 1 < M64
   | FC cs => nlen cs + 1 < M64
   | _ => True
